@@ -27,6 +27,7 @@ func init() {
 	register("C19", true, checkC19)
 	register("C14", true, checkC14)
 	register("C13", true, checkC13)
+	register("C05", true, checkC05)
 }
 
 func main() {
